@@ -345,8 +345,21 @@ impl Ctx {
         if per_sig < 3 && self.viols.len() < self.viol_budget {
             let mut d = detail;
             if d.len() > 4000 {
-                d.truncate(4000);
+                let mut cut = 4000;
+                while !d.is_char_boundary(cut) {
+                    cut -= 1;
+                }
+                d.truncate(cut);
                 d.push_str("...");
+            }
+            // emitted at once: the observation must survive a later hang or abort of this process
+            {
+                use std::io::Write;
+                let line = Obj::new().s("t", "viol").s("property", self.prop).u("index", self.index).s("sig", sig).s("detail", &d).done();
+                let out = std::io::stdout();
+                let mut l = out.lock();
+                let _ = writeln!(l, "{}", line);
+                let _ = l.flush();
             }
             self.viols.push(Viol {
                 index: self.index,
